@@ -133,9 +133,10 @@ class Player:
         lnt = self.linter(op)
         out = {}
         for parsed in lnt.parse_path(op["path"]):
-            tree = parsed.tree
+            rv = parsed.root_variant()
+            tree = rv.tree if rv else None
             out[os.path.normpath(parsed.fname)] = {
-                "v": [vio(v) for v in parsed.violations()],
+                "v": [vio(v) for v in (parsed.violations() if callable(parsed.violations) else parsed.violations)],
                 "tree": hashlib.sha1(tree.stringify().encode()).hexdigest() if tree is not None else None,
             }
         return {"parsed": out}
